@@ -5,6 +5,7 @@ import (
 	"fmt"
 	"net/url"
 	"os"
+	"runtime"
 	"strings"
 	"testing"
 	"time"
@@ -137,21 +138,47 @@ func check(s *codecx.Schema, c docCase) (fails []vf.Failure) {
 	cdc := s.NewCodec()
 	if c.Query != nil {
 		msg := dynamicpb.NewMessage(md)
+		size := 0
+		for k, vs := range c.Query {
+			size += len(k)
+			for _, v := range vs {
+				size += len(v)
+			}
+		}
+		var before, after runtime.MemStats
+		runtime.ReadMemStats(&before)
 		if f := vf.GuardTimed("QueryToProto", limit, func() { _ = cdc.QueryToProto(url.Values(c.Query), msg) }); f != nil {
 			f.Detail += fmt.Sprintf("\nquery: %q", c.Query)
 			fails = append(fails, *f)
+			return fails
+		}
+		runtime.ReadMemStats(&after)
+		// "bounded by the input size": work that a few bytes of key can scale at will
+		// shows as memory long before it shows as a hang. The allowance is generous
+		// (64 MB plus 64 kB per input byte; the unchanged tree stays under 1 MB here).
+		if alloc := after.TotalAlloc - before.TotalAlloc; alloc > 64<<20+uint64(size)*(64<<10) {
+			fails = append(fails, vf.Failf("alloc|QueryToProto", "QueryToProto allocated %d MB for %d bytes of query\nquery: %q", alloc>>20, size, c.Query))
 		}
 		return fails
 	}
 	doc := *c.Doc
 	msg := dynamicpb.NewMessage(md)
+	clipped := doc
+	if len(clipped) > 400 {
+		clipped = clipped[:200] + "…" + clipped[len(clipped)-100:]
+	}
+	var before, after runtime.MemStats
+	runtime.ReadMemStats(&before)
 	if f := vf.GuardTimed("JSONToProto", limit, func() { _ = cdc.JSONToProto([]byte(doc), msg) }); f != nil {
-		d := doc
-		if len(d) > 400 {
-			d = d[:200] + "…" + d[len(d)-100:]
-		}
-		f.Detail += "\ndocument: " + d
+		f.Detail += "\ndocument: " + clipped
 		fails = append(fails, *f)
+		return fails
+	}
+	runtime.ReadMemStats(&after)
+	// the same allowance as for queries (the deep lane's error path is quadratic in
+	// depth on the unchanged tree, which 64 kB per byte covers with room to spare)
+	if alloc := after.TotalAlloc - before.TotalAlloc; alloc > 64<<20+uint64(len(doc))*(64<<10) {
+		fails = append(fails, vf.Failf("alloc|JSONToProto", "JSONToProto allocated %d MB for a document of %d bytes\ndocument: %s", alloc>>20, len(doc), clipped))
 	}
 	return fails
 }
@@ -437,7 +464,7 @@ func TestMutate(t *testing.T) {
 // ---------------------------------------------------------------------------
 // lane 4: arbitrary url.Values
 
-var keyPunct = []string{".", "[", "]", "[]", "][", "]]", "[[", "[0]", "..", "/", ":", "%", "%5B", "%5D", " ", "+", "-", "_", "*", "$", "#", "&", "=", "?", "(", ")", "{", "}", "!", "@", "\\", "'", "\""}
+var keyPunct = []string{".0", ".1.", ".7.", ".300000.", ".2000000.", "0", "300000", ".", "[", "]", "[]", "][", "]]", "[[", "[0]", "..", "/", ":", "%", "%5B", "%5D", " ", "+", "-", "_", "*", "$", "#", "&", "=", "?", "(", ")", "{", "}", "!", "@", "\\", "'", "\""}
 
 func TestQuery(t *testing.T) {
 	r := vf.Start(t, prop, "query")
